@@ -255,7 +255,7 @@ fn selftest(args: &Args) -> ! {
     }
     // throughput probe on the real server (informational)
     let cands = c28::candidates();
-    let msgs: Vec<&(String, world::Msg)> = cands.iter().filter(|c| c.0 == "hover" || c.0 == "didChange:a").collect();
+    let msgs: Vec<&(String, Vec<world::Msg>)> = cands.iter().filter(|c| c.0 == "hover" || c.0 == "didChange:a").collect();
     let scn = c28::base_scenario("timing", &msgs, false);
     let t0 = std::time::Instant::now();
     let n = 50;
